@@ -66,6 +66,11 @@ MkRepeated(tr, cs) == [kind |-> "REPEATED",
                        pre |-> (tr.at \ominus W(1)) \ominus CivDiff(tr.pcs, cs),
                        trans |-> tr.at,
                        post |-> tr.at \oplus CivDiff(cs, tr.cs)]
+\* As repaired: an entry that leaves the offset alone (prev_civil_sec + 1 = civil_sec) cannot end an overlap - the entry that
+\* decides whether cs is repeated is the latest one at or before k that changes the offset (the pinned design looked at k only,
+\* so a designation-only entry shortly after a fall-back hid the rest of the repeated hour: MCZoneImpl!ImplMake, palette 6).
+RECURSIVE SameOff(_, _)
+SameOff(T, k) == IF k > 1 /\ CivPlus(T[k].pcs, W(1)) = T[k].cs THEN SameOff(T, k - 1) ELSE k
 \* k = 0-based index of the first entry whose civil_sec is after cs (0 = begin, n = end); as in the code
 MakeTime(Z, T, hint, cs) ==
   LET n == Len(T)
@@ -81,12 +86,12 @@ MakeTime(Z, T, hint, cs) ==
                  ELSE Unique(CivDiff(cs, LocalCiv(WZero, Z.types[Z.dflt].off))))
               ELSE MkSkipped(T[1], cs))
            ELSE IF k = n THEN
-             (IF CivLess(T[n].pcs, cs) THEN       \* after the last transition
+             (IF CivLess(T[SameOff(T, n)].pcs, cs) THEN       \* after the last transition
                 (IF CivLess(TypeCivilMax(Z, T[n].ty), cs) THEN Unique(TMax)
                  ELSE Unique(T[n].at \oplus CivDiff(cs, T[n].cs)))
-              ELSE MkRepeated(T[n], cs))
+              ELSE MkRepeated(T[SameOff(T, n)], cs))
            ELSE IF CivLess(T[k + 1].pcs, cs) THEN MkSkipped(T[k + 1], cs)
-           ELSE IF CivLeq(cs, T[k].pcs) THEN MkRepeated(T[k], cs)
+           ELSE IF CivLeq(cs, T[SameOff(T, k)].pcs) THEN MkRepeated(T[SameOff(T, k)], cs)
            ELSE Unique(T[k].at \oplus CivDiff(cs, T[k].cs))
   IN  [r |-> r, hint |-> newhint]
 
